@@ -67,7 +67,7 @@ Proof.
     assert (G : forall fs cur styp nr this total dt, Forall (fun s => 0 <= s_dur s) fs -> Forall (fun s => 0 <= s_dur s) cur ->
               Forall (fun c => Forall (fun s => 0 <= s_dur s) (c_samples c)) (chunk_loop (chunkDurOf segDurMS atoMS ts) newNr fs cur styp nr this total dt)).
     { clear. induction fs as [|s r IH]; intros cur styp nr this total dt Hf Hc; cbn [chunk_loop].
-      - destruct (this >? 0); repeat constructor; assumption.
+      - destruct cur as [|x cur']; [constructor|constructor; [exact Hc|constructor]].
       - inversion Hf; subst.
         assert (Forall (fun s => 0 <= s_dur s) (cur ++ [set_dt s dt])) by (apply Forall_app; split; [assumption|repeat constructor; cbn; assumption]).
         destruct (total + s_dur s >=? chunkDurOf segDurMS atoMS ts * nr); [constructor; [assumption|]|]; apply IH; auto. }
@@ -112,16 +112,14 @@ Qed.
 Lemma same_media_served r loopMS c n now m f0 frags st C cs :
   T.wf r loopMS -> 0 <= n -> 0 <= T.startNr c -> T.startNr c + n < two32 -> T.S r n < two64 ->
   T.lookup r loopMS c T.ByNumber (T.startNr c + n) now = T.TOk m ->
-  0 < C ->
   frags_contiguous (f_tfdt f0) (f0 :: frags) ->
   wf_input (frag_samples (f0 :: frags)) (T.S r n) ->
-  Forall (fun s => 0 < s_dur s) (frag_samples (f0 :: frags)) ->
   chunkSegment (frag_samples (f0 :: frags)) st (T.newTime m) (T.newNr m) (T.newDur m) C = Ok cs ->
   T.newTime m = T.S r n /\ T.newNr m = T.startNr c + n /\
   parse_body cs = whole_parse (T.S r n) (f0 :: frags) /\
   Forall (fun k => c_seq k = T.startNr c + n) cs /\ styp_first st cs.
 Proof.
-  intros W Hn Hs Hr Ht L HC Hfc Hwf Hpos H.
+  intros W Hn Hs Hr Ht L Hfc Hwf H.
   rewrite TP.lookup_number in L by assumption.
   rewrite (TP.segMetaFromNr_spec r loopMS W) in L by assumption.
   assert (Em : m = TP.metaOf r c n (T.startNr c + n)).
@@ -131,6 +129,6 @@ Proof.
   assert (E2 : T.newNr m = T.startNr c + n) by (subst m; reflexivity).
   split; [exact E1|]. split; [exact E2|].
   rewrite E1, E2 in H.
-  destruct (same_media _ _ _ _ _ _ _ _ HC Hfc Hwf Hpos H) as (A & B & D).
+  destruct (same_media _ _ _ _ _ _ _ _ Hfc Hwf H) as (A & B & D).
   repeat split; assumption.
 Qed.
